@@ -150,7 +150,10 @@ static void judge(const kctx_t *kc, const uint8_t *pkt, size_t plen, const uint8
     char key[128];
     /* output buffer: exactly blen bytes against a guard page; packet separately or in place */
     if (inplace) {
-        out = gb_place(&gM2, plen, PL_END, 0, 0, junk);   /* in-place needs room for the packet */
+        /* in-place needs room for the packet; the packet rotates over end-guard / start-guard / mid (which includes
+         * positions laid across a page boundary at every byte offset) */
+        out = gb_place(&gM2, plen, plen >= 2 ? (int)((junk >> 1) % 3) : PL_END, (unsigned)(junk >> 3), 0, junk);
+        ASAN_UNPOISON(out, plen);
         memcpy(out, pkt, plen);
         cbuf = out;
     } else {
@@ -159,7 +162,8 @@ static void judge(const kctx_t *kc, const uint8_t *pkt, size_t plen, const uint8
         int pl = blen <= 24 ? (int)(junk % 3) : PL_END;
         out = gb_place(&gM2, blen, pl, (unsigned)(junk >> 2), 0, junk);
         ASAN_UNPOISON(out, blen);
-        cbuf = gb_place(&gC2, plen, PL_END, 0, 0, 0);
+        cbuf = gb_place(&gC2, plen, plen >= 2 ? (int)((junk >> 1) % 3) : PL_END, (unsigned)(junk >> 3), 0, 0);
+        ASAN_UNPOISON(cbuf, plen);
         memcpy(cbuf, pkt, plen);
         gb_readonly(&gC2);
         for (i = 0; i < blen; ++i) out[i] = (uint8_t)(junk + i * 7 + 1) | 1;   /* recorded non-zero junk */
